@@ -114,9 +114,15 @@ def _make_reader(kind, df, path_stem, row_group):
         import pyarrow.parquet as pq
 
         p = Path(str(path_stem) + ".parquet")
+        pq.write_table(pa.table({"zz_old": [1, 2, 3]}), p)  # history: another table lived at this path
+        _old = td.TabularDataReader.from_path(p)
+        _old.get_column_names(), _old.read()
         pq.write_table(pa.Table.from_pandas(df, preserve_index=False), p, row_group_size=row_group or max(1, len(df)))
         return td.TabularDataReader.from_path(p), "parquet"
     p = Path(str(path_stem) + ".tab")
+    p.write_text("zz_old\n1\n2\n3\n")  # history: another table lived at this path
+    _old = td.TabularDataReader.from_path(p)
+    _old.get_column_names(), _old.read()
     with open(p, "w") as f:
         f.write("\t".join(df.columns) + "\n")
         for i in range(len(df)):
